@@ -430,6 +430,20 @@ def pipeline_obligations():
     ob('pipe_worker', 'multiruncrypt_file', 'multiruncrypt_file(id, (Aesmode *)m);', ['buffergroup__wait_buffer', 'buffergroup__require_buffer_entry', 'Aesmode__runcry'],
        group=True, timeout=600, extra='  AesEncrypt *m = malloc(sizeof(AesEncrypt));\n  __CPROVER_assume(m != NULL);\n  buffergroup__instance = g;\n', defines_extra=['WV_RUNCRY_LIGHT'],
        note='[C03] every block handed out is transformed exactly once, immediately, by the stream the thread was started with; exit only on INV')
+    IO = ['C01', 'C02', 'C03', 'C11', 'C13', 'C14']
+    fh = '  wv_FILE *f = malloc(sizeof(wv_FILE));\n  __CPROVER_assume(f != NULL);\n'
+    ob('pipe_load_buffer', 'iobuffer__load_buffer', 'bool pad; iobuffer__load_buffer(b, f, pad);', ['wv_fread', 'wv_feof', 'wv_fgetc', 'wv_ungetc'], extra=fh, timeout=600,
+       note='chunking, PKCS#7 padding (every pad byte, ghost index) and end-of-input detection for a symbolic 64-bit input length')
+    ob('pipe_export_buffer', 'iobuffer__export_buffer', 'bool pad; iobuffer__export_buffer(b, f, pad);', ['wv_fwrite'], extra=fh, timeout=600,
+       note='one write of the chunk; unpadding bounded by the block size; never more than 16*now bytes')
+    ob('pipe_buffer_update', 'buffergroup__buffer_update', 'g->turn = id; g->fin = f; g->fout = f2; buffergroup__buffer_update(g);',
+       ['bufferctrl__cmpstate', 'iobuffer__export_buffer', 'iobuffer__load_buffer', 'bufferctrl__set_ready'], group=True, timeout=600,
+       extra=fh + '  wv_FILE *f2 = malloc(sizeof(wv_FILE));\n  __CPROVER_assume(f2 != NULL);\n',
+       note='[C03] flush exactly when handed back, before the refill; [C04 lemma 6] over is raised by the first chunk that is not FULL and then every visited buffer is retired')
+    ob('pipe_turn_iter', 'buffergroup__turn_iter', 'buffergroup__turn_iter(g);', ['bufferctrl__cmpstate'], group=True, timeout=600,
+       note='[C04 lemma 5] the do-while terminates within `size` steps given live_num == number of non-retired buffers; false iff none is left')
+    for x in o[-4:]:
+        x.props = IO + (['C04'] if 'turn_iter' in x.name or 'buffer_update' in x.name else [])
     return o
 
 
